@@ -22,7 +22,7 @@ ROUTECLASS = {"query-reversed": "query-out-of-order", "query-rotated": "query-ou
               "base?deeper-reversed": "query-out-of-order", "get_with(query)": "query-out-of-order", "qstring": "query", "base?deeper": "query",
               "fields-reversed": "fields"}
 
-UNTYPED = ["bla", "bla/bla/bla", "hamlet/x", "hamlet/a/char/ophelia/model/v001/w/zz", "?x=y", "bla?project=hamlet", "a//b", " "]
+UNTYPED = ["bla", "bla/bla/bla", "hamlet/x", "hamlet/a/char/ophelia/model/v001/w/zz", "?x=y", "bla?project=hamlet", "a//b", " ", ""]
 
 
 def routes(ref, Sid, t, d, s, natural):
@@ -99,8 +99,18 @@ def check_case(ref, case):
             obs = {"parent": x.parent.uri, "get_as": x.get_as("project").uri, "keytype": x.keytype, "basetype": x.basetype,
                    "len": len(x), "div": (x / "a").string, "get_with": x.get_with(project="hamlet").uri}
             exp = {"parent": "", "get_as": "", "keytype": None, "basetype": None, "len": 0, "div": s + "/a", "get_with": ""}
+            if s == "":
+                obs.pop("get_with"), exp.pop("get_with")      # an overlay on nothing is a Sid built from that overlay (C04), not a navigation
             if obs != exp:
                 bad("untyped-navigation", obs, exp)
+            # what a navigation on an untyped Sid returned is itself an untyped (the empty) Sid: navigating on goes on not failing
+            for name, y in (("parent", x.parent), ("get_as", x.get_as("project")), ("Sid()", Sid())):
+                obs2 = {"parent": y.parent.uri, "get_as": y.get_as("project").uri, "keytype": y.keytype, "basetype": y.basetype, "len": len(y),
+                        "parent.parent": y.parent.parent.uri, "bool": bool(y)}
+                exp2 = {"parent": "", "get_as": "", "keytype": None, "basetype": None, "len": 0, "parent.parent": "", "bool": False}
+                if obs2 != exp2:
+                    bad("untyped-navigation/on-the-empty-sid", [name, obs2], exp2)
+                    break
         except Exception as e:  # noqa
             bad(f"untyped-navigation/exception/{type(e).__name__}", repr(e), "empty Sids")
         return out, "untyped"
